@@ -85,10 +85,21 @@ def _big_const(rng, i, n):
 
 
 def _unit_extra(rng, i, n):
-    c = rng.randrange(11)
+    c = rng.randrange(14)
     k = rng.choice(KW_POOL)
-    if c >= 9:
+    if c in (9, 10):
         return _big_const(rng, i, n)
+    if c == 11:     # an interface, a type implementing it, an instance check and a method call
+        return [f"(definterface I{i} (m{i} []) (n{i} [x]))",
+                f"(deftype X{i} [v] I{i} (m{i} [this] [:x v]) (n{i} [this x] [x v]))",
+                f"(def {n} (let [o (X{i} {rng.randrange(9)})] [(instance? I{i} o) (.m{i} o) (.n{i} o :{k})]))"], []
+    if c == 12:     # defonce / declare-then-def: forms whose expansion depends on whether the Var exists
+        return [f"(declare {n}-later)", f"(defonce {n} {_lit(rng)})", f"(defn {n}-f [] [{n} ({n}-later)])",
+                f"(defn {n}-later [] :{k})"], [(f"{n}-f", "")]
+    if c == 13:     # a protocol extended to existing host types
+        return [f"(defprotocol Q{i} ({n}-q [this]))",
+                f"(extend-protocol Q{i} python/int ({n}-q [this] [:int this]) python/str ({n}-q [this] [:str this]))",
+                f"(def {n} [({n}-q {rng.randrange(9)}) ({n}-q \"s\")])"], []
     if c == 0:      # several defs under one top-level do (unrolled by the compiler)
         return [f"(do (def {n} {_lit(rng)}) (def {n}-b {_lit(rng)}) (def {n}-c [{n} {n}-b]))"], []
     if c == 1:      # load-time, namespace dependent
